@@ -84,36 +84,49 @@ def get_facts(cfg='default', repo=None, use_cache=True):
         return _facts_memo[key]
     tag = 'repo' if repo == REPO else hashlib.sha256(repo.encode()).hexdigest()[:8]
     out = os.path.join(CACHE, 'facts-%s-%s-%s.json' % (tag, cfg, th))
-    if not (use_cache and os.path.exists(out) and os.path.getsize(out) > 0):
-        # drop stale fact files of this (tag, config)
-        for f in os.listdir(CACHE):
-            if f.startswith('facts-%s-%s-' % (tag, cfg)) and f.endswith('.json'):
-                try:
-                    os.remove(os.path.join(CACHE, f))
-                except OSError:
-                    pass
-        sysroot = subprocess.run(['rustc', '+nightly', '--print', 'sysroot'], capture_output=True, text=True).stdout.strip()
-        env = dict(os.environ)
-        env['LD_LIBRARY_PATH'] = os.path.join(sysroot, 'lib')
-        env['VERIF_FACTS_OUT'] = out
-        env['RUSTFLAGS'] = '-Zmir-opt-level=0 -Awarnings'
-        env['RUSTC_WORKSPACE_WRAPPER'] = DRIVER
-        td = os.path.join(CACHE, 'target-%s' % cfg)
-        env['CARGO_TARGET_DIR'] = td
-        env['CARGO_NET_OFFLINE'] = 'true'
-        # force the workspace member through the wrapper again (cargo freshness cache)
-        fp = os.path.join(td, 'debug', '.fingerprint')
-        if os.path.isdir(fp):
-            for d in os.listdir(fp):
-                if d.startswith('stats-ci-') or d.startswith('stats_ci-'):
-                    subprocess.run(['rm', '-rf', os.path.join(fp, d)])
-        r = subprocess.run(['cargo', '+nightly', 'check', '--offline', '--lib'] + CONFIGS[cfg],
-                           cwd=repo, env=env, capture_output=True, text=True)
-        if r.returncode != 0 or not os.path.exists(out) or os.path.getsize(out) == 0:
-            if os.path.exists(out):
-                os.remove(out)
-            raise FactsUnavailable(cfg, (r.stdout + r.stderr)[-6000:])
-    f = Facts(out)
+    import fcntl
+    scratch = repo != REPO
+    lock_fh = open(os.path.join(CACHE, 'lock-%s%s' % (cfg, '-scratch' if scratch else '')), 'w')
+    fcntl.flock(lock_fh, fcntl.LOCK_EX)
+    try:
+        if not (use_cache and os.path.exists(out) and os.path.getsize(out) > 0):
+            # drop stale fact files of this (tag, config)
+            for f in os.listdir(CACHE):
+                if f.startswith('facts-%s-%s-' % (tag, cfg)) and f.endswith('.json'):
+                    try:
+                        os.remove(os.path.join(CACHE, f))
+                    except OSError:
+                        pass
+            sysroot = subprocess.run(['rustc', '+nightly', '--print', 'sysroot'], capture_output=True, text=True).stdout.strip()
+            env = dict(os.environ)
+            env['LD_LIBRARY_PATH'] = os.path.join(sysroot, 'lib')
+            env['VERIF_FACTS_OUT'] = out + '.tmp'
+            env['RUSTFLAGS'] = '-Zmir-opt-level=0 -Awarnings'
+            env['RUSTC_WORKSPACE_WRAPPER'] = DRIVER
+            # scratch copies get their own target dir (the same package name at another path would
+            # clash with /repo's dep-info); every cargo run on a target dir is serialised by the lock
+            td = os.path.join(CACHE, 'target-%s%s' % (cfg, '-scratch' if scratch else ''))
+            env['CARGO_TARGET_DIR'] = td
+            env['CARGO_NET_OFFLINE'] = 'true'
+            # force the workspace member through the wrapper again (cargo freshness cache)
+            fp = os.path.join(td, 'debug', '.fingerprint')
+            if os.path.isdir(fp):
+                for d in os.listdir(fp):
+                    if d.startswith('stats-ci-') or d.startswith('stats_ci-'):
+                        subprocess.run(['rm', '-rf', os.path.join(fp, d)])
+            if os.path.exists(out + '.tmp'):
+                os.remove(out + '.tmp')
+            r = subprocess.run(['cargo', '+nightly', 'check', '--offline', '--lib'] + CONFIGS[cfg],
+                               cwd=repo, env=env, capture_output=True, text=True)
+            if r.returncode != 0 or not os.path.exists(out + '.tmp') or os.path.getsize(out + '.tmp') == 0:
+                if os.path.exists(out + '.tmp'):
+                    os.remove(out + '.tmp')
+                raise FactsUnavailable(cfg, (r.stdout + r.stderr)[-6000:])
+            os.replace(out + '.tmp', out)
+        f = Facts(out)
+    finally:
+        fcntl.flock(lock_fh, fcntl.LOCK_UN)
+        lock_fh.close()
     f.cfg = cfg
     f.path = out
     _facts_memo[key] = f
